@@ -3,6 +3,7 @@ package main
 import (
 	"github.com/bradenaw/juniper/container/xheap"
 	"github.com/bradenaw/juniper/iterator"
+	"math"
 )
 
 func init() {
@@ -10,7 +11,33 @@ func init() {
 	components["pq"] = runPQ
 }
 
+// cmpStretch (cfg "cmpscale"): 1 = compare results MinInt / MaxInt, 2 = magnitudes of 2^33 and more
+var cmpStretch = 0
+
+func stretchCmp(f func(a, b int) int) func(a, b int) int {
+	if f == nil {
+		return nil
+	}
+	return func(a, b int) int {
+		r := f(a, b)
+		switch {
+		case r == 0 || cmpStretch == 0:
+			return r
+		case cmpStretch == 1 && r < 0:
+			return math.MinInt
+		case cmpStretch == 1:
+			return math.MaxInt
+		}
+		return r << 33
+	}
+}
+
 func orderOf(mode int) (less func(a, b int) bool, cmp func(a, b int) int) {
+	less, cmp = orderOf0(mode)
+	return less, stretchCmp(cmp)
+}
+
+func orderOf0(mode int) (less func(a, b int) bool, cmp func(a, b int) int) {
 	switch mode {
 	case 0:
 		return func(a, b int) bool { return a < b }, nil
@@ -37,6 +64,10 @@ func ints(a any) []int {
 
 // cfg: mode, initial ([]int)
 func runHeap(c *Case) *Obs {
+	cmpStretch = 0
+	if v, ok := c.Cfg["cmpscale"]; ok {
+		cmpStretch = num(v)
+	}
 	less, cmp := orderOf(num(c.Cfg["mode"]))
 	initial := ints(c.Cfg["initial"])
 	var h xheap.Heap[int]
@@ -112,6 +143,10 @@ func drainInts(it iterator.Iterator[int], limit int) any {
 
 // cfg: mode, initial ([][2]int key,priority)
 func runPQ(c *Case) *Obs {
+	cmpStretch = 0
+	if v, ok := c.Cfg["cmpscale"]; ok {
+		cmpStretch = num(v)
+	}
 	less, cmp := orderOf(num(c.Cfg["mode"]))
 	var initial []xheap.KP[int, int]
 	for _, kp := range c.Cfg["initial"].([]any) {
